@@ -40,7 +40,8 @@ def replay_gridded(args):
             decoy = GriddedPSFModel(NDData(1000.0 - data[::-1], meta={'grid_xypos': xy, 'oversampling': ov}))
             decoy.x_0, decoy.y_0 = c['x0'] / 2.0, c['y0'] / 2.0
             decoy(np.array([[c['x0'] / 2.0]]), np.array([[c['y0'] / 2.0]]))
-        model = GriddedPSFModel(NDData(data, meta={'grid_xypos': xy, 'oversampling': ov}))
+        fill = [0.0, 0, -1, 7.5][(idx // 2) % 4]          # float and integer-typed fill values
+        model = GriddedPSFModel(NDData(data, meta={'grid_xypos': xy, 'oversampling': ov}), fill_value=fill)
         # earlier evaluations at other positions must not matter (cache keyed by grid position)
         if idx % 4 == 0:
             model.x_0, model.y_0 = gx[-1] - 0.3, gy[0] + 0.2
@@ -63,8 +64,8 @@ def replay_gridded(args):
             out.append(('gridded_value_is_bilinear_blend_of_cell_nodes_at_sample_points', sig, {'case': c, 'max_abs_dev': float(np.max(np.abs(got - exp)[inner]))}))
         # outside the ePSF array: fill_value
         far = np.asarray(model(np.array([[x0 + 50.0]]), np.array([[y0]])), dtype=float)
-        if far[0, 0] != 0.0:
-            out.append(('fill_value_outside_the_array', sig, {'case': c, 'got': float(far[0, 0])}))
+        if far[0, 0] != float(fill):
+            out.append(('fill_value_outside_the_array', dict(sig, fill=repr(fill)), {'case': c, 'got': float(far[0, 0])}))
     except Exception as e:  # noqa
         out.append(('raises', sig, {'case': c, 'exc': repr(e)}))
     return out
@@ -101,6 +102,43 @@ def rec_imagepsf(seed):
         md = max(float(dev.max()) if dev.size else 0.0, float(dev2.max()) if dev2.size else 0.0, 1e6 if nanbad else 0.0,
                  1e6 if not (np.array_equal(xs, xs_in) and np.array_equal(ys, ys_in)) else 0.0)
         rec['maxdev'] = int(min(md, 1e4) * S / 64)
+    except Exception as e:  # noqa
+        rec['raised'] = True; rec['exc'] = repr(e)
+    return rec
+
+
+def rec_makepsf(seed):
+    """make_psf_model(normalize=True) wraps any astropy model into a PSF model that integrates to its flux, wherever the model is centred"""
+    from astropy.modeling.models import Gaussian2D, Moffat2D
+    from photutils.psf import make_psf_model
+    rng = random.Random(seed)
+    rec = {'id': seed, 'kind': 'samples', 'rel': 'wrapped_model_integrates_to_its_flux', 'raised': False, 'maxdev': 0, 'tol': 8}
+    try:
+        xc, yc = rng.uniform(-10, 60), rng.uniform(-10, 60)           # x and y centres far apart in general
+        if seed % 2:
+            base = Gaussian2D(amplitude=rng.uniform(0.5, 30), x_mean=xc, y_mean=yc, x_stddev=rng.uniform(1.5, 3.0), y_stddev=rng.uniform(1.5, 3.0), theta=rng.uniform(0, 3))
+            names = dict(x_name='x_mean', y_name='y_mean')
+            half = 24
+        else:
+            base = Moffat2D(amplitude=rng.uniform(0.5, 30), x_0=xc, y_0=yc, gamma=rng.uniform(1.5, 2.5), alpha=4.5)
+            names = dict(x_name='x_0', y_name='y_0')
+            half = 24
+        with warnings.catch_warnings():
+            warnings.simplefilter('ignore')
+            psf = make_psf_model(base, **names, normalize=True)
+        flux = rng.choice([1.0, 3.5, 120.0])
+        setattr(psf, psf.flux_name, flux)              # the wrapped model keeps its own parameter names; flux_name / x_name / y_name map them
+        # move it: the normalisation is a property of the shape, not of where it was wrapped
+        if seed % 3 == 0:
+            setattr(psf, psf.x_name, xc + 7.25); setattr(psf, psf.y_name, yc - 3.5)
+            xc, yc = xc + 7.25, yc - 3.5
+        h = 0.25
+        g = np.arange(-half, half + h / 2, h)
+        xx, yy = np.meshgrid(xc + g, yc + g)
+        total = float(np.sum(np.asarray(psf(xx, yy), dtype=float))) * h * h / flux
+        # (the make_psf_model normalisation box is 50 x 50 px: a Moffat profile with alpha = 4.5 has < 1e-3 of its flux outside)
+        rec['maxdev'] = int(min(abs(total - 1.0), 10.0) * S)
+        rec['tol'] = 8 if seed % 2 else 24
     except Exception as e:  # noqa
         rec['raised'] = True; rec['exc'] = repr(e)
     return rec
@@ -222,6 +260,7 @@ def run(ctx):
     lat = [c for c in lat if not (c['model'] in ('CircularGaussianPRF', 'CircularGaussianPSF', 'CircularGaussianSigmaPRF', 'MoffatPSF', 'AiryDiskPSF') and c['theta'] != 0)]
     lat = [c for c in lat if not (c['model'] in ('CircularGaussianPRF', 'CircularGaussianPSF', 'CircularGaussianSigmaPRF') and c['shape'] != 1)]
     recs = core.pmap(rec_analytic, list(enumerate(lat)), chunksize=8, on_raise='drop')
+    recs += core.pmap(rec_makepsf, [2 * 10**7 + ctx.seed * 1000 + i for i in range(64 if q else 600)], chunksize=8, on_raise='drop')
     recs += core.pmap(rec_imagepsf, [10**7 + ctx.seed * 1000 + i for i in range(300 if q else 5000)], chunksize=32, on_raise='drop')
     ver = core.validate_batch(ctx, 'Trace_PSFModels', recs, 'Trace:PSFModels')
     for r in recs:
